@@ -209,6 +209,21 @@ Proof.
     + apply (Hcompl xn yn row Erow Hx).
 Qed.
 
+Lemma draw_decodes_view : forall (parent : list (list spx)) crop (w : nat),
+  src_ok (view_rows parent crop) w ->
+  exists pal q,
+    quantize (sixel_eff (view_rows parent crop)) sixel_palette_size sixel_dither = Ok (pal, q) /\
+    (length pal <= 256)%nat /\
+    forall orders, orders_ok q orders = true ->
+    exists bytes pic,
+      sixel_draw (view_rows parent crop) orders = Ok bytes /\ sixel_decode bytes = Some pic /\
+      picture_ok (N.of_nat w) (N.of_nat (height6 (view_rows parent crop))) pic = true.
+Proof.
+  intros parent crop w H. destruct (draw_decodes _ w H) as (pal & q & Hq & Hl & Hd).
+  exists pal, q. split; [exact Hq|]. split; [exact Hl|]. intros orders Ho.
+  destruct (Hd orders Ho) as (bytes & pic & Hb & Hp & Hok & _). exists bytes, pic. auto.
+Qed.
+
 (* the source pixel a position of the (truncated) image refers to *)
 Definition src_px (rows : list (list spx)) (xn yn : nat) : option spx :=
   match nth_error rows yn with Some r => nth_error r xn | None => None end.
